@@ -69,6 +69,7 @@ def run_migration(ctx, files, faults, label):
     I = Interp(ctx, sp)
     fs = FS()
     fs.files = files
+    fs.observed = []
     state = {'fault_used': faults != 'explore', 'crashed': False}
 
     def boundary(name):
@@ -83,8 +84,17 @@ def run_migration(ctx, files, faults, label):
             raise PyRaise('OSError', (), name)
 
     sp.globals['C'] = Untracked()
-    sp.models['load_merchant_rules'] = Func(lambda I_, a, k, n: (maybe_fault('read_csv'), Obj(I_.fresh('csv_rules', ObjS), 'rules') if fs.files.get(a[0]) == ('csv',) else [])[1])
-    sp.models['csv_to_merchants_content'] = Func(lambda I_, a, k, n: ('CONV',))
+    def m_load(I_, a, k, n):
+        maybe_fault('read_csv')
+        r = Obj(I_.fresh('csv_rules', ObjS), 'rules') if fs.files.get(a[0]) == ('csv',) else []
+        fs.observed.append(('loaded', a[0], r))
+        return r
+
+    def m_convert(I_, a, k, n):
+        fs.observed.append(('converted', a[0]))
+        return ('CONV',)
+    sp.models['load_merchant_rules'] = Func(m_load)
+    sp.models['csv_to_merchants_content'] = Func(m_convert)
     sp.models['len'] = Func(lambda I_, a, k, n: Untracked())
     sp.models['os.path.join'] = Func(lambda I_, a, k, n: '/'.join(a))
     sp.models['os.path.exists'] = Func(lambda I_, a, k, n: a[0] in fs.files)
